@@ -46,8 +46,10 @@ impl<'a> StringLexer<'a> {
 
     /// (mostly just used by Iterator, but might be useful)
     pub fn next_lexeme(&mut self) -> Result<Option<u8>> {
+        // (a loop, not recursion: a string may consist of any number of line continuations)
+        loop {
         let c = self.next_byte()?;
-        match c {
+        return match c {
             b'\\' => {
                 let c = self.next_byte()?;
                 Ok(
@@ -61,14 +63,14 @@ impl<'a> StringLexer<'a> {
                     b')' => Some(b')'),
                     b'\n' => {
                         // ignore end-of-line marker (LF CR is not one: the CR belongs to the string)
-                        self.next_lexeme()?
+                        continue;
                     }
                     b'\r' => {
                         // ignore end-of-line marker
                         if let Ok(b'\n') = self.peek_byte() {
                             let _ = self.next_byte();
                         }
-                        self.next_lexeme()?
+                        continue;
                     }
                     b'\\' => Some(b'\\'),
 
@@ -120,6 +122,7 @@ impl<'a> StringLexer<'a> {
 
             c => Ok(Some(c))
 
+        };
         }
     }
 
